@@ -135,7 +135,19 @@ def replay(chk, behs, rng, fire_every):
                         else:
                             atmo = m.Atmo(U.Foot(0), U.InHg(29.92), U.Celsius(15.0 if op["T"] != 15 else 20.0), 0.0, T_(op["T"]))
                         shot = m.Shot(weapon=weapon, ammo=ammo, atmo=atmo)
-                        o2 = impl.outcome(lambda: calc.fire(shot, U.Foot(16), U.Foot(8)).trajectory[0].velocity >> VU)
+                        if want <= 0:
+                            # a sensitivity this extreme extrapolates to a non-positive speed: nothing to launch
+                            chk.stratum("fire_skipped_nonpositive_velocity")
+                            continue
+
+                        def launch():
+                            # below the calculator's minimum velocity the solver stops at once (C04): the muzzle row is
+                            # attached to the error
+                            try:
+                                return calc.fire(shot, U.Foot(16), U.Foot(8)).trajectory[0].velocity >> VU
+                            except m.RangeError as e:
+                                return e.incomplete_trajectory[0].velocity >> VU
+                        o2 = impl.outcome(launch)
                         chk.count(1)
                         chk.stratum("fire_" + mode)
                         if o2[0] != "ok":
